@@ -55,6 +55,12 @@ class DirectFace(Face):
     def peer_close(self):
         self.shutdown()
 
+    def crash(self, exc):
+        """the transport fails in a way run() does not translate: run() raises"""
+        self.running = False
+        if self._closed is not None and not self._closed.done():
+            self._closed.set_exception(exc)
+
 
 class FakeWriter:
     def __init__(self, on_bytes, on_close=None):
